@@ -25,6 +25,10 @@ FRAGMENTS = {
     "no-dry-run": ("valid", ["--no-dry-run"]),
     "verbose-off": ("valid", ["--no-verbose"]),
     "workers": ("valid", ["--max-workers", "2"]),
+    # boundary values: either accepted (status 0, report written) or rejected as an invalid argument (3) - nothing else
+    "workers-zero": ("lenient", ["--max-workers", "0"]),
+    "workers-negative": ("lenient", ["--max-workers", "-1"]),
+    "workers-large": ("valid", ["--max-workers", "64"]),
     "log-json": ("valid", ["--log-format", "json"]),
     "log-human": ("valid", ["--log-format", "human"]),
     "project": ("valid", ["--project-name", "demo"]),
@@ -201,9 +205,12 @@ def ref_exit_status(cfg):
     if d == "is-file":
         # undocumented: a regular file as target; accept success or "cannot be read"
         return (applicable | {0, 1}), False, "target is a regular file (don't care)"
+    lenient = "lenient" in classes
     if not applicable:
+        if lenient:
+            return {0, 3}, False, "boundary value of an option: accepted or rejected as an argument error"
         return {0}, o in ("writable", "existing-file", "symlink-to-file", "fifo-with-reader"), "completed run"
-    return applicable, False, "run-time conditions %s" % sorted(applicable)
+    return (applicable | {3}) if lenient else applicable, False, "run-time conditions %s" % sorted(applicable)
 
 
 def judge(cfg, obs):
@@ -275,7 +282,7 @@ def configs(tier):
                 c = list(canon)
                 c[i], c[j] = vi, vj
                 pairs.append(tuple(c))
-    frag1 = [(), ("dry-run",), ("help",), ("unknown-option",), ("bad-workers",), ("exclude",), ("workers",)]
+    frag1 = [(), ("dry-run",), ("help",), ("unknown-option",), ("bad-workers",), ("exclude",), ("workers",), ("workers-zero",)]
     for c in singles:
         for v in frag1:
             cfgs.append((v, False) + c)
